@@ -1099,7 +1099,7 @@ def simulate(repo, func, **kw):
     return PathSim(repo, func, **kw).run()
 
 
-def check_reach(paths, target, mapper, expected, feasible=None, universe=None, ignore_raise=False):
+def check_reach(paths, target, mapper, expected, feasible=None, universe=None, ignore_raise=False, first_only=False):
     """For every path: reached(target) must equal expected(F') for every completion F' of the path's mapped
     facts over `universe` (names of semantic atoms) that satisfies `feasible`.
 
@@ -1122,6 +1122,8 @@ def check_reach(paths, target, mapper, expected, feasible=None, universe=None, i
                 continue
             name, pol = m
             val = v if pol else (not v)
+            if name in facts and first_only:
+                continue
             if name in facts and facts[name] != val:
                 contradictory = True
             facts[name] = val
